@@ -125,6 +125,12 @@ func init() {
 		Stubs:     []string{"github.com/fsnotify/fsnotify: simulated (the harness feeds the notifications an inotify watcher of the parent directory produces)", "Core.run: a consumer that re-reads the file on every signal and keeps the last complete content"},
 		LevelText: "seeded search over timings of file operations, notification delivery and consumer latency of the real watcher on the simulated clock; the oracle compares what the consumer loaded with the file's final content 10 simulated seconds after the last change",
 		LevelNote: "trusted: the notification sequences the harness emits per operation match Linux inotify semantics; Core's reaction is modelled by the consumer (level 2, the watcher inside Core, is not built)"})
+	reg(&propDef{ID: "C02", World: "w4", Chunk: 200, Level: "exploration", Quick: 12000, Thorough: 1500000, QuickS: 60, ThorS: 1200, Claims: []string{"*"},
+		Rule:      "http or jwt method x 0-2 exclusion entries x 1-3 concurrent clients x 4-13 Authenticate calls (6 actions, 4 paths, 5 protocols, 3 IPs; credentials placed in the token field, the password and the token/jwt query parameter, several at once) x per-call network fault (refused, black hole, latency around the client timeout, forced status 100..503, garbage/truncated/oversize/slow/failing body, empty key set) x gaps of 0 ms..1 h on the simulated clock; jwt: Ed25519 key sets rotated by an authority actor, RefreshJWTJWKS calls, tokens valid / signed by a key outside the set / wrong, absent or foreign kid / tampered payload or signature / alg none / HS256 keyed with the public key / expired or not yet valid relative to the simulated clock / issuer, audience missing or wrong / permission claim as array, as string, missing, under another key, not a list; non-trivial = at least one request admitted and one rejected (exclusions not counted); distinct = distinct (method, admitted, rejected, failed/total key downloads, event-log hash)",
+		Real:      []string{"internal/auth.Manager: Authenticate, authenticateHTTP, authenticateJWT, getToken, pullJWTJWKS, RefreshJWTJWKS, jwtClaims.UnmarshalJSON, customLimitReader (instrumented)", "net/http.Client (timeout handling, redirects, body wrappers), github.com/MicahParks/keyfunc/v3, github.com/golang-jwt/jwt/v5: real, on the simulated clock"},
+		Stubs:     []string{"network and authority: the Transport of the manager's http.Client literals is replaced by a simulated round tripper (auth endpoint that grants by rule on the POST body it receives; JWKS endpoint serving the current key set), which injects the faults", "TLS and certificate fingerprints (C41)"},
+		LevelText: "seeded search over request histories, authority behaviour, network faults and clock positions against the real manager; the oracle is a reference decision written from the statement: http = the authority delivered a 2xx to a POST carrying exactly the request's fields; jwt = the presented token (by the stated precedence) verifies, is within its validity and grants under a key set the server can hold at that instant",
+		LevelNote: "trusted: the reference decision and token builder (worlds/w4/zz_ref.go); tokens are Ed25519 only; verdicts within 1 ms of exp/nbf and verdicts that differ between the key sets downloaded during a call are not judged; whether a key download is due is not judged (the statement does not say), only that a request whose own download failed is rejected"})
 	reg(&propDef{ID: "C12", World: "w2", Chunk: 40, Level: "exploration", Quick: 1500, Thorough: 200000, QuickS: 90, ThorS: 1500,
 		Rule:      "1-3 concurrent API clients x 4-12 operations (read, global patch, path-defaults patch, path add/patch/replace/delete on 3 names plus an invalid name; unique maxReaders/readTimeout values, valid and invalid payloads: queue size not a power of two, zero timeout, payload size above the limit, recordDeleteAfter below the segment duration) x 0-100 ms gaps x seeded schedule; non-trivial = at least one edit was accepted; distinct = distinct (clients/edits/accepted, event-log hash)",
 		Real:      []string{"internal/core.Core: New, run, reloadConf, closeResources, createResources, doAPIConfig*, APIConfig* (instrumented)", "internal/conf: JSON decoding of the request bodies, Patch*/AddPath/ReplacePath/RemovePath/Validate, Clone", "internal/core path manager, internal/confwatcher, internal/recordcleaner, internal/auth (instrumented)"},
